@@ -319,6 +319,19 @@ def ref_decide(rules, sub, is_dir, default_include=False):
     return rules[-1].include
 
 
+def ref_decide_reason(rules, sub, is_dir, default_include=False):
+    """(excluded, index of the deciding rule): the first rule that matches, else the last rule of the list."""
+    for i, r in enumerate(rules):
+        m = r.matches(sub, is_dir)
+        if m is None:
+            return None, None
+        if m:
+            return (not r.include), i
+    if default_include or not rules:
+        return False, None
+    return rules[-1].include, len(rules) - 1
+
+
 # ------------------------------------------------------------------------------------------------------------
 # rule and tree generators
 
